@@ -94,6 +94,9 @@ func genPayload(rt *rapid.T, w *world) payload {
 		return payload{msg: m, rightful: [][]cs.Signer{op, out}, roles: []string{"operator", "output"}, about: "new validator " + op[0].String()}
 	case "editStake", "unstake", "pause":
 		v := pick(rt, "validator", w.vals)
+		if mt == "editStake" && rapid.IntRange(0, 2).Draw(rt, "asymmetric-validator") == 0 {
+			v = w.vals[pick(rt, "which-asymmetric", []int{3, 5})] // poor operator / rich output, rich operator / poor output
+		}
 		p := payload{rightful: [][]cs.Signer{v.operator}, roles: []string{"operator"}, about: v.name}
 		if len(v.output) > 0 {
 			p.rightful, p.roles = append(p.rightful, v.output), append(p.roles, "output")
@@ -110,7 +113,12 @@ func genPayload(rt *rapid.T, w *world) payload {
 				p.msg = &fsm.MessageUnstake{Address: v.addr}
 				return p
 			}
-			m := &fsm.MessageEditStake{Address: v.addr, Amount: cur.StakedAmount + rapid.Uint64Range(0, 5000).Draw(rt, "stake-increase"), Committees: cur.Committees, NetAddress: cur.NetAddress,
+			inc := rapid.Uint64Range(0, 5000).Draw(rt, "stake-increase")
+			if rapid.IntRange(0, 2).Draw(rt, "big-top-up") == 0 || (len(v.output) > 0 && rapid.Bool().Draw(rt, "big-top-up-non-custodial")) {
+				inc = bigTopUp // more than a poor signer holds: must fail unless the SIGNER can pay (never the other key's account)
+				p.about += fmt.Sprintf(" top-up %d", inc)
+			}
+			m := &fsm.MessageEditStake{Address: v.addr, Amount: cur.StakedAmount + inc, Committees: cur.Committees, NetAddress: cur.NetAddress,
 				OutputAddress: cur.Output, Compound: cur.Compound}
 			if rapid.IntRange(0, 2).Draw(rt, "redirect-output") == 0 {
 				// only the current output address may redirect the output: operator-signed redirects of a non-custodial validator are refused
